@@ -128,10 +128,14 @@ def oracle_trace(tr, tol=1e-9):
             if rate is not None and np.isfinite(Nrec) and np.isfinite(Nprev):
                 bound = Nprev + dt * float(rate[p])
                 if Nrec > bound + tol * max(abs(Nrec), abs(bound)) + 1e-6:
-                    remeshed = si > 0 and tr.steps[si - 1]['before'] is not None and not grid_same(tr.steps[si - 1]['before'], tr.steps[si - 1]['after'], p) \
-                        and tr.steps[si - 1]['before']['bins'][p] != tr.steps[si - 1]['after']['bins'][p] and \
-                        not np.allclose(tr.steps[si - 1]['before']['bounds'][p][:2], tr.steps[si - 1]['after']['bounds'][p][:2])
-                    negprev = si > 0 and np.any(split(tr.steps[si - 1]['iter']['Xn'], tr.steps[si - 1]['before']['bins'])[p] < 0) if si > 0 and tr.steps[si - 1]['iter'] else False
+                    prev = tr.steps[si - 1] if si > 0 else None
+                    remeshed = False
+                    if prev is not None and prev['before'] is not None and not grid_same(prev['before'], prev['after'], p):
+                        wb = prev['before']['bounds'][p][1] - prev['before']['bounds'][p][0]
+                        wa = prev['after']['bounds'][p][1] - prev['after']['bounds'][p][0]
+                        remeshed = abs(wa - wb) > 1e-9 * abs(wb)        # class width changed: re-mesh, not extension
+                    Xgiven = split(it['X'], bef['bins'])[p]
+                    negprev = (not remeshed) and float(np.sum(Xgiven)) > Nprev * (1 + 1e-12) + 1e-6
                     cls = 'after re-mesh' if remeshed else ('after negative class' if negprev else 'plain step')
                     v.append(('density_step_bound', cls,
                               'step %d of run %s, phase %d: number density rose from %r to %r (+%.3e) but nucleation rate * step = %.3e [%s]' % (n, name, p, Nprev, Nrec, Nrec - Nprev, dt * float(rate[p]), cls), si))
